@@ -27,6 +27,13 @@ ID_FAMILIES = {"rte", "rex", "wa", "wf"}
 INVARIANTS = "Correct NoBad CarrySound ProbeOnlyExactFit NotStuck Emit"
 
 
+ALL_BRANCHES = (["read:" + k for k in ("data", "eof", "eintr", "err", "reserve", "carried_init", "exact_fit")]
+                + ["probe:" + k for k in ("data", "eof", "eintr", "err")]
+                + ["guard:invalid_utf8", "guard:invalid_utf8_and_error", "guard:valid_utf8", "return"]
+                + ["exact:" + k for k in ("data", "eof", "eintr", "err", "filled", "unexpected_eof")]
+                + ["write:" + k for k in ("acc", "short", "zero", "eintr", "err", "complete", "formatter_error")])
+
+
 def id_data(n):
     return [((i - 1) % 200) + 1 for i in range(1, n + 1)]
 
@@ -72,6 +79,7 @@ def run_driver(chk, bindir, cases, tag):
 def judge(chk, cases, outs, tag, batch=6000, workers=4, par=2):
     """TLC judges every recorded run.  Returns (bad indices, set of conforming indices)."""
     bad, conf = [], set()
+    trace_acts = chk.extra.setdefault("branches_taken_by_real_runs", {})
 
     def one(k):
         lines = []
@@ -93,6 +101,9 @@ def judge(chk, cases, outs, tag, batch=6000, workers=4, par=2):
         for l in res.out.splitlines():
             if l.startswith('<<"T", ') and l.endswith(", TRUE>>"):
                 conforming.add(k + int(l[7:].split(",")[0]) - 1)
+        for a in res.printed("A"):
+            for t in a:
+                trace_acts[t] = trace_acts.get(t, 0) + 1
         return res, [k + i - 1 for i in j[0]["bad"]], conforming, len(lines)
 
     with ThreadPoolExecutor(max_workers=par) as ex:
@@ -281,7 +292,10 @@ def run(tier):
             per_family[fam] = {"L": L, "states": res.distinct, "behaviours": len(beh), "wall_s": round(res.wall, 1)}
     models = {}
     cases = []
+    model_acts = {}
     for b in behaviours:
+        for t in b["acts"]:
+            model_acts[t] = model_acts.get(t, 0) + 1
         c = {"op": b["op"], "script": b["script"], "data": b["data"], "init": b["init"], "cap0": b["cap0"],
              "n": b["n"], "pieces": b["pieces"], "ff": b["ff"]}
         k = case_key(c)
@@ -350,6 +364,9 @@ def run(tier):
                 "non-trivial = distinct cases whose script has >= 2 items or an EINTR / error / Ok(0) item"
                 % (", ".join("%s L<=%d" % (f, L) for f, L in fams), len(cases), len(rcases)))
     chk.extra["families"] = per_family
+    chk.extra["branches_taken_by_model_behaviours"] = dict(sorted(model_acts.items()))
+    chk.extra["branches_taken_by_real_runs"] = dict(sorted(chk.extra["branches_taken_by_real_runs"].items()))
+    chk.extra["branches_not_exercised"] = sorted(set(ALL_BRANCHES) - set(model_acts)) + sorted("real:" + t for t in set(ALL_BRANCHES) - set(chk.extra["branches_taken_by_real_runs"]))
     chk.extra["model_behaviours"] = len(behaviours)
     chk.extra["generated_cases"] = len(cases)
     chk.extra["random_cases"] = len(rcases)
